@@ -9,4 +9,7 @@ import (
 // struct fields (and which of them are written outside construction) of the source tree under
 // analysis; Props/C04.v requires C04_state_inventory (coq/Sys/StateInvC04.v), which compares
 // the part in this property's scope with the expected inventory of coq/Sys/StateInvSpec.v.
+// It is listed FIRST in kit.Main's generator list: Main stops at the first translator that gives up on an
+// edited tree, and the inventory must be regenerated from that tree all the same (a stale one hides or
+// invents differences).
 var stateGen kit.GenFn = stategen.Gen
